@@ -54,12 +54,24 @@ def hist_program(seed):
     return p
 
 
+class CachingSpy(SpyCassette):
+    """A read cache in front of the store: repeated fetches of an id hand out the SAME Recording object (legal: get_data copies)."""
+
+    def get_recording(self, recording_id):
+        cache = self.__dict__.setdefault('_fetched', {})
+        if recording_id not in cache:
+            cache[recording_id] = SpyCassette.get_recording(self, recording_id)
+        else:
+            self._add('get', recording_id)
+        return cache[recording_id]
+
+
 class Session(object):
-    def __init__(self, kind, rng_seed=11):
+    def __init__(self, kind, rng_seed=11, caching=False):
         from playback.tape_recorder import TapeRecorder
         self.cm = open_box(kind)
         self.box = self.cm.__enter__()
-        self.spy = SpyCassette(self.box.cassette)
+        self.spy = (CachingSpy if caching else SpyCassette)(self.box.cassette)
         self.rec = TapeRecorder(self.spy)
         self.rec._random = SpyRandom(rng_seed)
         self.rec.enable_recording()
@@ -249,6 +261,15 @@ def do_element(ctx, sess, kind, seed, w):
 
 
 def probe(ctx, rec, spy, box, which, seed, replay_source=None, builts=None, during=None):
+    """A probe that ends in an exception of the framework is a summary too (it is compared with the fresh recorder's)."""
+    from playback.exceptions import TapeRecorderException
+    try:
+        return _probe(ctx, rec, spy, box, which, seed, replay_source, builts, during)
+    except TapeRecorderException as ex:
+        return ('probe raised', type(ex).__name__)
+
+
+def _probe(ctx, rec, spy, box, which, seed, replay_source=None, builts=None, during=None):
     """Returns a comparable summary of the probe run. ``during`` runs as a plain step inside the probe's operation (the service finishing
     off something it kept from an earlier run)."""
     prog = hist_program(seed)
@@ -295,11 +316,15 @@ def run_history(ctx, kinds, which, kind_cassette, seed):
     desc = {'history': kinds, 'probe': which, 'cassette': kind_cassette}
     w = dict(desc, seed=seed)
     ctx.case(desc, nontrivial=len(kinds) >= 1)
-    sess = Session(kind_cassette)
+    sess = Session(kind_cassette, caching=(seed % 5 == 3))
+    if seed % 5 == 3:
+        ctx.count('histories_on_a_cassette_with_a_read_cache')
     try:
         # a recording to replay in the probe, made before the history
         setup = fr.execute(hist_program(seed + 999), {}, recorder=sess.rec, spy=sess.spy, box=sess.box, with_twin=False)
         src = ([e for e in setup.spy_events if e[0] == 'save'][0][2], hist_program(seed + 999))
+        if seed % 5 == 3:
+            sess.saved.append((src[0], src[1], {}))      # (the history replays the very recording the probe will replay: repeated fetches of one id)
         draws_before = len(sess.rec._random.draws)
         sess.pseed = seed if which == 'record_rate0' else seed + 500
         for i, k in enumerate(kinds):
